@@ -564,7 +564,10 @@ class Exec:
                 if len(args) == 1:
                     nn = to_int(args[0])
                     return KeyIter(lambda k, nn=nn: z3.And(k >= 0, k < nn))
-                raise Unsupported('range with start/step')
+                if len(args) == 2:
+                    lo, nn = to_int(args[0]), to_int(args[1])
+                    return KeyIter(lambda k, lo=lo, nn=nn: z3.And(k >= lo, k < nn))
+                raise Unsupported('range with step')
             if name == 'tuple' or name == 'list' or name == 'sorted':
                 return self.as_iter(args[0], heap)
             if name == 'enumerate':
@@ -623,11 +626,23 @@ class Exec:
         if isinstance(o, Set):
             dom = heap.sets[o.oid]
             if m == 'copy': return heap.new_set(dom)
-            if m == 'difference_update':
+            k0 = fresh('k', I)
+            if m == 'clear':
+                heap.sets[o.oid] = z3.K(I, z3.BoolVal(False)); return PyConst(None)
+            if m in ('difference_update', 'update', 'intersection_update', 'symmetric_difference_update',
+                     'difference', 'symmetric_difference', 'union', 'intersection'):
                 it = self.as_iter(args[0], heap)
-                k0 = fresh('k', I)
-                heap.sets[o.oid] = z3.Lambda([k0], z3.And(z3.Select(dom, k0), z3.Not(it.member(k0))))
-                return PyConst(None)
+                a_, b_ = z3.Select(dom, k0), it.member(k0)
+                body = {'difference': z3.And(a_, z3.Not(b_)), 'update': z3.Or(a_, b_), 'union': z3.Or(a_, b_),
+                        'intersection': z3.And(a_, b_), 'symmetric_difference': z3.Xor(a_, b_)}[m.replace('_update', '') if m != 'update' else 'update']
+                lam = z3.Lambda([k0], body)
+                if m.endswith('update'):
+                    heap.sets[o.oid] = lam; return PyConst(None)
+                return heap.new_set(lam)
+            if m in ('add', 'discard', 'remove'):
+                k = to_int(args[0])
+                if m == 'remove' and not self.decide(z3.Select(dom, k)): raise _Raise('KeyError')
+                heap.sets[o.oid] = z3.Store(dom, k, z3.BoolVal(m == 'add')); return PyConst(None)
             raise Unsupported(f'set.{m}')
         if isinstance(o, Cls):
             if o.name == 'SparseVector' and m == 'from_dict':
@@ -831,6 +846,16 @@ class Merge:
                 if fid == 'float': return to_real(v)
                 if fid == 'bool': return truth(v)
                 x = to_real(v); return z3.If(x >= 0, x, -x)
+            if isinstance(f, ast.Attribute) and f.attr in ('add', 'discard', 'remove'):
+                o = self.expr(f.value, g)
+                if isinstance(o, Set):
+                    k = self.expr(n.args[0], g)
+                    if not self.is_key(k): raise Unsupported('set update at a key other than the loop key')
+                    c = self.cell(o.oid)
+                    if f.attr == 'remove':
+                        ex.obligations.append(('set.remove of a present key', list(ex.pc) + [g], c.present))
+                    c.present = z3.If(g, z3.BoolVal(f.attr == 'add'), c.present)
+                    return PyConst(None)
             if isinstance(f, ast.Attribute) and f.attr == 'get':
                 o = self.expr(f.value, g)
                 if isinstance(o, Dict):
